@@ -32,6 +32,9 @@ func GenShowCase(r *rand.Rand, thorough bool) *ShowCase {
 		k.ExtPkgs = 1
 	}
 	m := progen.Generate(r, k)
+	if r.IntN(2) == 0 {
+		m.AddFacade(r)
+	}
 	c := &ShowCase{Module: m, Iters: []string{"asc", "desc", fmt.Sprintf("shuffle:%d", r.IntN(100000))}}
 	if thorough {
 		c.Iters = append(c.Iters, fmt.Sprintf("shuffle:%d", r.IntN(100000)), fmt.Sprintf("shuffle:%d", r.IntN(100000)))
